@@ -367,6 +367,50 @@ def judge_tokens(ctx, root, replay):
     ctx.case(('token-pairs', len(reps) > 1, 'unequal'))
 
 
+def judge_text_variants(ctx, text, auto, a):
+    """Two documents that print different text are unequal (same type, different text): the same document with
+    extra trailing trivia - which no field of the tree owns."""
+    for extra in ('\n', '\n\n', ' ', '\t\n', '\n; unowned tail\n'):
+        t2 = text + extra
+        try:
+            b = parse(t2, False if ';' in extra else auto)
+        except Exception:   # noqa: BLE001
+            continue
+        if intro.pr(b) == intro.pr(a):
+            continue
+        ctx.case(('text-variant', repr(extra)))
+        for x, y, d in ((a, b, 'a == b'), (b, a, 'b == a')):
+            if safe_eq(x, y) is True:
+                ctx.oracle_fail('C20:different-text-equal:File:trailing-trivia', f'{d} although the printed texts differ (extra {extra!r} at the end)',
+                                {'text': text, 'auto_claim': auto, 'site': None, 'variant': extra})
+                return
+
+
+def judge_hash_after_edit(ctx, root, replay):
+    """Token == is consistent with hash also after in-place edits: hash a token, change it through its setters, then
+    compare it (and its hash) with an independently built token of the same RULE and text."""
+    import tokedit
+    r = ctx.rng
+    toks = [t for t in root.token_store if tokedit.domain_assignments(r, t)]
+    for t in (r.sample(toks, 8) if len(toks) > 8 else toks):
+        hash(t)
+        attr, val = r.choice(tokedit.domain_assignments(r, t))
+        try:
+            setattr(t, attr, val)
+        except Exception:   # noqa: BLE001
+            continue
+        try:
+            twin = type(t).from_raw_text(t.raw_text)
+        except Exception:   # noqa: BLE001
+            continue
+        ctx.case(('hash-after-edit', type(t).__name__, attr))
+        if t == twin and hash(t) != hash(twin):
+            ctx.oracle_fail(f'C20:hash:after-edit:{type(t).__name__}.{attr}',
+                            f'{type(t).__name__} edited through .{attr} equals a fresh token with text {t.raw_text!r} but their hashes differ',
+                            {**replay, 'mode': 'hash-after-edit'})
+            return
+
+
 # ---- run ------------------------------------------------------------------------------------------------------------
 
 def one_site(ctx, judge, text, auto, a, da, b0, site, lock):
@@ -429,6 +473,7 @@ def run(ctx, ndocs=None, lockstep=True):
         judge.pair('copy', a, c, base_replay, expect=True, dumps=(da, treedump.Dump(c)) if lockstep else None)
         # tokens
         judge_tokens(ctx, a, base_replay)
+        judge_text_variants(ctx, text, auto, a)
         # same-class sub-model pairs of one document
         bycls = {}
         for p, x in tree_nodes(a):
@@ -451,6 +496,7 @@ def run(ctx, ndocs=None, lockstep=True):
             chosen += r.sample(rest, min(len(rest), per_doc - len(chosen)))
         for s in chosen:
             one_site(ctx, judge, text, auto, a, da, b0, s, lock=r.random() < 0.35)
+        judge_hash_after_edit(ctx, parse(text, auto), base_replay)
         if len(judge.lines) > 1500:
             judge.flush()
     judge.flush()
